@@ -482,7 +482,11 @@ class StepOps:
         cache = self.__dict__.setdefault("_locals_of", {})
         if key not in cache:
             try:
-                cache[key] = set(local_names(unit)) - set(unit.param_names())
+                # (names bound by assignment / loops / del only: a nested ``def`` or an import binds its name without a
+                # store the model follows)
+                from asl.loader import own_nodes as _own
+                cache[key] = {x.id for x in _own(unit.node) if isinstance(x, ast.Name) and isinstance(x.ctx, ast.Store)} \
+                    - set(unit.param_names())
             except Exception:  # noqa: BLE001
                 cache[key] = set()
         locs = cache[key]
